@@ -565,18 +565,23 @@ class Emit:
         full = (0, (1 << n) - 1)
         op, a = t.op, t.args
         w = None
+        def crep(x):
+            """window of an operand; a constant with the top bit set is read as its negative representative (same value mod 2^n)"""
+            if isconst(x) and x.p >= (1 << (n - 1)):
+                return (x.p - (1 << n), x.p - (1 << n))
+            return self.win[x.id]
         if op == "const": w = (t.p, t.p)
         elif op == "var":
             w = self.bounds.get(t.p, full)
             if not (0 <= w[0] <= w[1] <= full[1]): raise NotEncodable("bad bound for " + t.p)
         elif op == "bvadd":
-            (la, ha), (lb, hb) = self.win[a[0].id], self.win[a[1].id]
+            (la, ha), (lb, hb) = crep(a[0]), crep(a[1])
             w = (la + lb, ha + hb)
         elif op == "bvsub":
-            (la, ha), (lb, hb) = self.win[a[0].id], self.win[a[1].id]
+            (la, ha), (lb, hb) = crep(a[0]), crep(a[1])
             w = (la - hb, ha - lb)
         elif op == "bvmul":
-            (la, ha), (lb, hb) = self.win[a[0].id], self.win[a[1].id]
+            (la, ha), (lb, hb) = crep(a[0]), crep(a[1])
             c = [la * lb, la * hb, ha * lb, ha * hb]
             w = (min(c), max(c))
         elif op == "bvneg":
@@ -745,6 +750,9 @@ class Emit:
         # machine value
         n = t.sort[1]
         plan = self.plan.get(t.id)
+        if op in ("bvadd", "bvsub", "bvmul"):
+            # same choice of representative as in the window analysis
+            r = [(_ilit(x.p - (1 << n)) if isconst(x) and x.p >= (1 << (n - 1)) else rx) for x, rx in zip(a, r)]
         if op == "bvadd": b = f"(+ {r[0]} {r[1]})"
         elif op == "bvsub": b = f"(- {r[0]} {r[1]})"
         elif op == "bvmul": b = f"(* {r[0]} {r[1]})"
@@ -787,9 +795,8 @@ class Emit:
                 r = self.irng[t.id]
                 if r is None:
                     raise NotEncodable(f"bv mode: unbounded mathematical integer {t!r}")
+                # ring operations may wrap modulo 2^W harmlessly; every node that is compared / divided is itself covered here
                 W = max(W, _bits(max(abs(r[0]), abs(r[1]))) + 2)
-                if t.op == "imul":   # intermediate products of n-ary multiplication are bounded by the same analysis
-                    pass
         return W
 
     def _bv_node(self, t):
